@@ -7,10 +7,12 @@ From LV Require Import Gen.Consts_C19 Session.FileXferDefs Session.FileXferProof
 Import ListNotations.
 Local Open Scope Z_scope.
 
-(* HEAD: 9f956a4 and 7654ac8 present; the two proposed fixes not yet *)
-Definition v_tight_tree : tvariant := {| f19 := true; fstale := true; fundone := false; flist := false |}.
-(* with notes/fix_C19_4.diff and notes/fix_C19_5.diff *)
-Definition v_tight_fixed : tvariant := {| f19 := true; fstale := true; fundone := true; flist := true |}.
+(* HEAD: 9f956a4, 7654ac8, fb3fc0a (= notes/fix_C19_4.diff) and 2214ab9 (= notes/fix_C19_5.diff) present *)
+Definition v_tight_tree : tvariant := {| f19 := true; fstale := true; fundone := true; flist := true |}.
+(* regression variants: the flow before fb3fc0a and 2214ab9 (F19c, F19d, F19f), before fb3fc0a only, before 2214ab9 only *)
+Definition v_tight_pre45 : tvariant := {| f19 := true; fstale := true; fundone := false; flist := false |}.
+Definition v_tight_pre4 : tvariant := {| f19 := true; fstale := true; fundone := false; flist := true |}.
+Definition v_tight_pre5 : tvariant := {| f19 := true; fstale := true; fundone := true; flist := false |}.
 (* the flow before 7654ac8 (regression variant) *)
 Definition v_tight_prefix : tvariant := {| f19 := true; fstale := false; fundone := false; flist := false |}.
 
@@ -52,7 +54,7 @@ Proof.
 Qed.
 
 Lemma entry_ops_ok : forall root dir entries,
-  below_root root dir -> Forall (op_ok root) (entry_ops v_tight_fixed dir entries).
+  below_root root dir -> Forall (op_ok root) (entry_ops v_tight_tree dir entries).
 Proof.
   intros root dir entries Hd. induction entries as [|n rest IH]; cbn [entry_ops]; [constructor|].
   destruct (dot_entry n) eqn:Ed; auto.
@@ -61,7 +63,7 @@ Proof.
 Qed.
 
 Lemma step_ok : forall root st gm ops st',
-  name_ok root st -> tight_step_g v_tight_fixed root st gm = (ops, st') ->
+  name_ok root st -> tight_step_g v_tight_tree root st gm = (ops, st') ->
   Forall (op_ok root) ops /\ name_ok root st'.
 Proof.
   intros root st [g m] ops st' Hn. unfold tight_step_g. cbn [fst snd].
@@ -79,23 +81,23 @@ Proof.
   destruct g; [|apply Drop].
   destruct m; cbn [tight_step].
   - destruct (len_ok name); [|apply Nil; auto].
-    destruct (conv v_tight_fixed root name) as [p|] eqn:Ec; [|apply Nil; auto].
-    assert (B : below_root root p) by exact (conv_below v_tight_fixed root name p eq_refl Ec).
+    destruct (conv v_tight_tree root name) as [p|] eqn:Ec; [|apply Nil; auto].
+    assert (B : below_root root p) by exact (conv_below v_tight_tree root name p eq_refl Ec).
     intro H; inversion H; subst. split; auto. constructor; [exact B|apply entry_ops_ok; exact B].
   - destruct (len_ok name); [|apply Nil; auto].
-    destruct (conv v_tight_fixed root name) as [p|] eqn:Ec; [|apply Nil; auto].
-    assert (B : below_root root p) by exact (conv_below v_tight_fixed root name p eq_refl Ec).
+    destruct (conv v_tight_tree root name) as [p|] eqn:Ec; [|apply Nil; auto].
+    assert (B : below_root root p) by exact (conv_below v_tight_tree root name p eq_refl Ec).
     intro H; inversion H; subst. split; [repeat constructor; auto|auto].
   - destruct (len_ok name); [|apply Nil; auto].
-    cbn [fundone v_tight_fixed]. destruct (close_undone st) as [pre st1] eqn:Ecu.
+    cbn [fundone v_tight_tree]. destruct (close_undone st) as [pre st1] eqn:Ecu.
     destruct (close_undone_ok root st pre st1 Hact Ecu) as [Fp [A1 [A2 _]]].
-    destruct (conv v_tight_fixed root name) as [p|] eqn:Ec.
-    + assert (B : below_root root p) by exact (conv_below v_tight_fixed root name p eq_refl Ec).
+    destruct (conv v_tight_tree root name) as [p|] eqn:Ec.
+    + assert (B : below_root root p) by exact (conv_below v_tight_tree root name p eq_refl Ec).
       rewrite A1. cbn [app]. intro H; inversion H; subst. split.
       * apply Forall_app. split; [exact Fp|repeat constructor; exact B].
       * intros _. simpl. right. exact B.
     + intro H; inversion H; subst. split; auto. intros _. simpl. left. reflexivity.
-  - cbn [fundone v_tight_fixed]. destruct (close_undone st) as [pre st1] eqn:Ecu.
+  - cbn [fundone v_tight_tree]. destruct (close_undone st) as [pre st1] eqn:Ecu.
     destruct (close_undone_ok root st pre st1 Hact Ecu) as [Fp [A1 [A2 _]]].
     unfold drop, close_undone. cbn [up_active]. rewrite A1.
     intro H; inversion H; subst. split.
@@ -112,21 +114,21 @@ Proof.
     intros _. destruct (up_active st) eqn:Eact; [left; apply B3; reflexivity|rewrite (B4 eq_refl); exact Hn].
   - apply Nil; auto.
   - destruct (Zlength name >=? C19_PATH_MAX - 1); [apply Drop|].
-    destruct (conv v_tight_fixed root name) as [p|] eqn:Ec; [|apply Nil; auto].
-    intro H; inversion H; subst. split; [repeat constructor; exact (conv_below v_tight_fixed root name p eq_refl Ec)|auto].
+    destruct (conv v_tight_tree root name) as [p|] eqn:Ec; [|apply Nil; auto].
+    intro H; inversion H; subst. split; [repeat constructor; exact (conv_below v_tight_tree root name p eq_refl Ec)|auto].
   - apply Drop.
 Qed.
 
-(* C19_tight_every_entry_confined (repaired flow: tree + fix_C19_4 + fix_C19_5): for every sequence of
+(* C19_tight_every_entry_confined (the tree since fb3fc0a and 2214ab9): for every sequence of
    extension messages of every type with the gate evaluated per message, every name (complete or cut
    short), every listing, every outcome of creat/write, and a connection dropped at any point: every
    file-system call - incl. the unlink of the close hook and the per-entry stat - is below the root
    (root ++ "/" ++ rel, rel never climbing above it) and no path buffer overflows *)
 Theorem tight_every_entry_confined : forall root ms st,
-  name_ok root st -> Forall (op_ok root) (tight_run v_tight_fixed root st ms).
+  name_ok root st -> Forall (op_ok root) (tight_run v_tight_tree root st ms).
 Proof.
   intros root ms. induction ms as [|m rest IH]; intros st Hn; cbn [tight_run]; [constructor|].
-  destruct (tight_step_g v_tight_fixed root st m) as [ops st'] eqn:E.
+  destruct (tight_step_g v_tight_tree root st m) as [ops st'] eqn:E.
   destruct (step_ok _ _ _ _ _ Hn E) as [H1 H2]. apply Forall_app. split; auto.
 Qed.
 
@@ -148,18 +150,18 @@ Proof. intros st. unfold drop. destruct (close_undone st). reflexivity. Qed.
 (* the tree (F19c): an upload in progress, then a second upload header whose name stops after
    "/etc/x\0": rfbCloseClient runs the close hook, which unlinks the unconverted "/etc/x" *)
 Lemma tight_closehook_w :
-  tight_run v_tight_tree [47; 114] tstate0 [(true, TUpload [47; 97] true); (true, TUploadTrunc [47; 101; 116; 99; 47; 120; 0])]
+  tight_run v_tight_pre45 [47; 114] tstate0 [(true, TUpload [47; 97] true); (true, TUploadTrunc [47; 101; 116; 99; 47; 120; 0])]
   = [TCreat [47; 114; 47; 97]; TUnlink [47; 101; 116; 99; 47; 120]].
 Proof. vm_compute. reflexivity. Qed.
 
 (* the tree (F19d): listing a directory whose spelled-out path is long, with a long entry name *)
 Lemma tight_overflow_w :
-  In TOverflow (tight_run v_tight_tree [47; 114] tstate0
+  In TOverflow (tight_run v_tight_pre45 [47; 114] tstate0
                  [(true, TList (47 :: repeat 46 3900) [repeat 110 250])]).
 Proof. vm_compute. right. left. reflexivity. Qed.
 
 Theorem tight_every_entry_confined_refuted : exists root ms o,
-  In o (tight_run v_tight_tree root tstate0 ms) /\ ~ op_ok root o.
+  In o (tight_run v_tight_pre45 root tstate0 ms) /\ ~ op_ok root o.
 Proof.
   exists [47; 114], [(true, TUpload [47; 97] true); (true, TUploadTrunc [47; 101; 116; 99; 47; 120; 0])], (TUnlink [47; 101; 116; 99; 47; 120]).
   split. { rewrite tight_closehook_w. right; left; reflexivity. }
@@ -167,7 +169,7 @@ Proof.
 Qed.
 
 Theorem tight_listing_overflow_refuted : exists root ms,
-  In TOverflow (tight_run v_tight_tree root tstate0 ms).
+  In TOverflow (tight_run v_tight_pre45 root tstate0 ms).
 Proof. exists [47; 114]. eexists. exact tight_overflow_w. Qed.
 
 (* regression witness for 7654ac8 (F19b) *)
@@ -178,7 +180,7 @@ Lemma tight_stale_name_w :
 Proof. vm_compute. reflexivity. Qed.
 
 Example tight_confined_nonvacuous :
-  tight_run v_tight_fixed [47; 114] tstate0
+  tight_run v_tight_tree [47; 114] tstate0
     [(true, TList [47] [[46]; [102]]); (true, TUpload [47; 97] true); (true, TUpload [47; 98] true); (true, TUploadDone);
      (true, TMkdir [47; 100]); (true, TDownload [47; 97]); (true, TUpload [47; 99] true); (false, TDownloadCancel); (true, TList [47] [])]
   = [TOpendir [47; 114; 47]; TStatEntry [47; 114; 47] [102]; TCreat [47; 114; 47; 97]; TUnlink [47; 114; 47; 97]; TCreat [47; 114; 47; 98];
@@ -294,14 +296,14 @@ Proof. vm_compute. auto. Qed.
 (* ------------------------------------------------------------------ audit follow-up (notes/audit_B.md, C19 items 2 and 7) *)
 (* F19f: a second upload request while one is in progress loses the first descriptor (HandleFileUpload sets
    uploadFD = -1 without closing it); nothing closes it later - it outlives the connection.  The flow with
-   notes/fix_C19_4.diff finishes the undone upload first (tight_every_entry_confined covers it: TLostFd is
+   fix commit fb3fc0a finishes the undone upload first (tight_every_entry_confined covers it: TLostFd is
    not op_ok) *)
 Lemma tight_lost_fd_w :
-  tight_run v_tight_tree [47; 114] tstate0 [(true, TUpload [47; 97] true); (true, TUpload [47; 98] true); (true, TClose)]
+  tight_run v_tight_pre45 [47; 114] tstate0 [(true, TUpload [47; 97] true); (true, TUpload [47; 98] true); (true, TClose)]
   = [TCreat [47; 114; 47; 97]; TLostFd; TCreat [47; 114; 47; 98]; TUnlink [47; 114; 47; 98]].
 Proof. vm_compute. reflexivity. Qed.
 
-Theorem tight_upload_fd_lost_refuted : exists root ms, In TLostFd (tight_run v_tight_tree root tstate0 ms).
+Theorem tight_upload_fd_lost_refuted : exists root ms, In TLostFd (tight_run v_tight_pre45 root tstate0 ms).
 Proof. eexists. eexists. rewrite tight_lost_fd_w. right; left; reflexivity. Qed.
 
 (* F19e: "transfer enabled implies a non-empty root" is false: without a usable home directory (no passwd
